@@ -251,7 +251,7 @@ class CFG:
         return dom
 
 
-def solve_forward(cfg, init, transfer, join, exc_transfer=None, bottom=None):
+def solve_forward(cfg, init, transfer, join, exc_transfer=None, bottom=None, edge_filter=None):
     """Generic forward dataflow.  transfer(node, in_state) -> out_state (normal edges);
     exc_transfer(node, in_state) -> state propagated along 'exc' edges (default: in_state
     joined with out_state, i.e. the statement may or may not have taken effect)."""
@@ -269,6 +269,8 @@ def solve_forward(cfg, init, transfer, join, exc_transfer=None, bottom=None):
         OUT[n.id] = s_out
         s_exc = exc_transfer(n, s_in, s_out) if exc_transfer else join(s_in, s_out)
         for s, lab in n.succ:
+            if edge_filter is not None and not edge_filter(n, s, lab):
+                continue
             val = s_exc if lab == "exc" else s_out
             old = IN.get(s.id)
             new = val if old is None else join(old, val)
